@@ -276,13 +276,53 @@ def r19_3_4(prog, chk, classes):
                     if a and a[0] is not None and a[0]["k"] == "UnOp" and a[0].get("op") == "-":
                         out.append((c, "_expandInformation(%s)" % ", ".join(show(x) for x in a)))
             return out
+        def guard_texts(f, c):
+            """conditions under which the call is made (texts of the enclosing If conditions, split on &&; tests of the data base
+            pointer itself are not conditions on the state)"""
+            out = set()
+            child = c
+            for a in f.ancestors(c):
+                if a["k"] == "If" and len(a["c"]) >= 2:
+                    pol = a["c"][1] is child
+                    work = [a["c"][0]]
+                    while work:
+                        e = work.pop()
+                        while e is not None and e["k"] == "Cast":
+                            e = e["c"][0]
+                        if e is not None and e["k"] == "BinOp" and e.get("op") == "&&" and pol:
+                            work += e["c"]
+                        elif e is not None:
+                            t_ = ("" if pol else "!") + show(e)
+                            if "getDbin() != nullptr" not in t_ and "hasDbin" not in t_:
+                                out.add(t_)
+                child = a
+            return out
         rb_restores = set()
+        rb_guards = {}
         for f in rb_methods.values():
-            rb_restores |= {t for _, t in restoring(f)}
+            for c, t in restoring(f):
+                rb_restores.add(t)
+                rb_guards.setdefault(t, []).append((f, c, guard_texts(f, c)))
         for short, f in post_methods.items():
             for c, t in restoring(f):
                 nrole += 1
                 ok = t in rb_restores
+                if ok:
+                    # the roll-back restores it under no more conditions than _postprocess does
+                    gp = guard_texts(f, c)
+                    extra = None
+                    for (rf, rc, gr) in rb_guards[t]:
+                        if gr - gp:
+                            extra = (rf, rc, sorted(gr - gp))
+                        else:
+                            extra = None
+                            break
+                    nrole += 1
+                    chk.ob("R19.4", "%s: `%s` is restored by _rollback under no more conditions than by _postprocess" % (K, t),
+                           extra[0].loc(extra[1]) if extra else f.loc(c), extra is None,
+                           detail=None if extra is None else "_postprocess restores `%s` %s, the failure path only when %s: when that does not hold a failed "
+                           "calculation leaves the changed roles" % (t, "under {%s}" % ", ".join(sorted(gp)) if gp else "unconditionally", " and ".join(extra[2])),
+                           key="R19.4|%s|%s|guards" % (K, t))
                 chk.ob("R19.4", "%s: role restore `%s` of _postprocess is also done by _rollback" % (K, t), f.loc(c), ok,
                        detail=None if ok else "_postprocess puts the input data base back with `%s`; the failure path (%s) does not, "
                        "so a failed calculation leaves the changed roles" % (t, rb.name),
@@ -579,6 +619,33 @@ def r19_7(prog, chk):
                     ok, detail = False, "the deletion loop over %s does not start at 0" % lst
         chk.ob("R19.7", "_cleanVariableDb deletes every column registered in %s (%s, %s)" % (lst, db, "status 1" if perm else "status 2"),
                where, ok, detail=detail, key="R19.7|%s" % lst)
+        # ... and reaches that deletion on EVERY path (no early exit): from the entry, with the status of the list and the list not
+        # empty, no path gets to the exit without passing the deletion
+        if dels:
+            g = CFG(clean)
+            delids = {c["i"] for c in dels}
+            loops = {l["i"] for l in clean.walk() if l["k"] == "For" and any(y["i"] in delids for y in walk(l))}
+
+            def eo(blk, k, s_, perm=perm, lst=lst):
+                if blk.get("t") == "ForStmt" and blk.get("ts") in loops and k == 1:
+                    return False                       # the loop over a non-empty list is entered
+                cnd = g.cond(blk["b"])
+                if cnd is None or len(blk["s"]) != 2:
+                    return True
+                core, pol = peel_cond(cnd)
+                t = show(core)
+                truth = (k == 0) == pol
+                if t == "status == 1":
+                    return truth == bool(perm)
+                if core is not None and core["k"] == "MCall" and (core.get("callee") or "").split("::")[-1] == "empty" and _field_of_this(call_obj(core)) == lst:
+                    return truth is False
+                return True
+            w = g.search(g.entry_pos(), to_exit=True, is_barrier=lambda y: y["i"] in delids, edge_ok=eo)
+            n += 1
+            chk.ob("R19.7", "_cleanVariableDb reaches the deletion of %s on every path" % lst, clean.loc(), w is None,
+                   detail=None if w is None else "the function can return before it deletes the columns registered in %s (for a reason that is neither the status "
+                   "nor the list): a failed run leaves its variables in the data base" % lst,
+                   key="R19.7|%s|reached" % lst, path=None if w is None else g.describe(w))
     chk.floor("R19.7", n, 4)
 
 
